@@ -1030,7 +1030,7 @@ CHECK = Check(
         "at least one healthy client has a request fed and not yet answered; distinct = sha1 of the canonical case JSON"
     ),
     layers=[
-        Layer("faults", st_case, run_faults_case, {"quick": 2000, "thorough": 12000}),
+        Layer("faults", st_case, run_faults_case, {"quick": 2000, "thorough": 8000}),
         Layer("rst", st_rst_case, run_rst_case, {"quick": 20, "thorough": 40}, case_timeout_s=120.0),
     ],
     assumptions=[
